@@ -1,0 +1,65 @@
+//! Verification hooks, compiled only with `--cfg fast_qr_verif`.
+//!
+//! Re-exports a few crate-private routines so that an external harness can
+//! drive them directly, and records the candidates of the mask selection loop.
+//! Nothing in here changes the behaviour of the crate.
+
+use std::cell::RefCell;
+
+use crate::{Mask, QRCode, Version, ECL};
+
+/// Re-export of the block division routine (`polynomials::division`)
+#[must_use]
+pub fn division(from: &[u8], by: &[u8]) -> [u8; 255] {
+    crate::polynomials::division(from, by)
+}
+
+/// Re-export of the (version, level) -> generator polynomial accessor
+#[must_use]
+pub fn generator(version: Version, ecl: ECL) -> &'static [u8] {
+    crate::hardcode::get_polynomial(version, ecl)
+}
+
+/// Re-export of the block structuring routine (`polynomials::structure`)
+#[must_use]
+pub fn structure(data: &[u8], ecl: ECL, version: Version) -> [u8; 5430] {
+    crate::polynomials::structure(data, ecl, version)
+}
+
+/// One candidate of the mask selection loop
+pub struct Candidate {
+    /// Mask applied to the candidate
+    pub mask: Mask,
+    /// Score the candidate was ranked by
+    pub score: u32,
+    /// The masked candidate matrix
+    pub matrix: Box<QRCode>,
+}
+
+thread_local! {
+    static RECORDER: RefCell<Option<Vec<Candidate>>> = RefCell::new(None);
+}
+
+/// Starts recording the candidates of the mask selection loop on this thread
+pub fn arm() {
+    RECORDER.with(|r| *r.borrow_mut() = Some(Vec::new()));
+}
+
+/// Stops recording and returns what was recorded since `arm`
+#[must_use]
+pub fn take() -> Vec<Candidate> {
+    RECORDER.with(|r| r.borrow_mut().take().unwrap_or_default())
+}
+
+/// Called from the selection loop; inert unless `arm` was called on this thread
+pub(crate) fn record_candidate(mask: Mask, score: u32, matrix: &QRCode) {
+    RECORDER.with(|r| {
+        if let Some(v) = r.borrow_mut().as_mut() {
+            v.push(Candidate {
+                mask,
+                score,
+                matrix: Box::new(matrix.clone()),
+            });
+        }
+    });
+}
